@@ -86,7 +86,10 @@ func runE2ERestart(dir string, seed uint64, tier string) {
 		if onlyCase != 0 && onlyCase != id {
 			continue
 		}
-		if runE2ERestartCase(res, id, label, sc, data, allSelector) {
+		caseID, caseSc, caseData := id, sc, data
+		okCase := false
+		e2eWatchdog(res, dir, caseID, label, func() { okCase = runE2ERestartCase(res, caseID, label, caseSc, caseData, allSelector) })
+		if okCase {
 			completed++
 		}
 		res.distinct(label)
